@@ -31,6 +31,12 @@ FAMILIES = {
     # the disk cache built with its background cleanup task (new_with_background_tasks, cleanup every 3 ms)
     "diskbg": dict(Kind="disk", Keys=2, OpKinds=["put", "put_ttl", "get", "remove", "tick"],
                    Sizes=[3], ShortSizes=[2], LongSizes=[], MaxRestarts=0, MaxTicks=2),
+    # the boundary values of the TTL domain - Duration::ZERO, 1 ns, Duration::MAX - as put_with_ttl argument and
+    # (grid DTtl) as the configured default_ttl; on the disk cache also across drop-and-recreate
+    "memedge": dict(Kind="mem", Keys=2, OpKinds=["put", "put_ttl", "get", "contains", "remove", "tick"],
+                    Sizes=[1], ShortSizes=[], LongSizes=[], EdgeTtls=["zero", "ns", "max"], EdgeSizes=[2], MaxRestarts=0, MaxTicks=1),
+    "diskedge": dict(Kind="disk", Keys=2, OpKinds=["put", "put_ttl", "get", "contains", "remove", "tick", "restart"],
+                     Sizes=[1], ShortSizes=[], LongSizes=[], EdgeTtls=["zero", "ns", "max"], EdgeSizes=[2], MaxRestarts=1, MaxTicks=1),
 }
 DISK_MAXE = 100000      # far above any population: the disk cache is not expected to evict
 
@@ -53,6 +59,7 @@ def mc_constants(fam, depth, grid, variant="ideal", asis=()):
         "Bg": "{" + ", ".join("TRUE" if b else "FALSE" for b in grid.get("Bg", [False])) + "}",
         "OpKinds": tla_strs(grid.get("OpKinds", f["OpKinds"])), "Sizes": tla_ints(grid.get("Sizes", f["Sizes"])),
         "ShortSizes": tla_ints(f["ShortSizes"]), "LongSizes": tla_ints(f["LongSizes"]),
+        "EdgeTtls": tla_strs(f.get("EdgeTtls", [])), "EdgeSizes": tla_ints(f.get("EdgeSizes", [])),
         "MaxRestarts": f["MaxRestarts"], "MaxTicks": f["MaxTicks"], "Variant": '"%s"' % variant,
         "AsIs": lib.tla_set(sorted(asis)),
     }
@@ -132,7 +139,9 @@ def program_of(evs):
 MARKS = {"put": '"op":"put"', "put_ttl": '"op":"put_ttl"', "get": '"op":"get"', "contains": '"op":"contains"',
          "remove": '"op":"remove"', "clear": '"op":"clear"', "tick": '"op":"tick"', "restart": '"op":"restart"',
          "probe": '"op":"probe"', "answer:hit": '"hit":true', "answer:miss": '"hit":false', "answer:true": '"b":true',
-         "answer:false": '"b":false', "kind:mem": '"kind":"mem"', "kind:disk": '"kind":"disk"'}
+         "answer:false": '"b":false', "kind:mem": '"kind":"mem"', "kind:disk": '"kind":"disk"',
+         "ttl:zero": '"ttl":"zero"', "ttl:ns": '"ttl":"ns"', "ttl:max": '"ttl":"max"', "ttl:short": '"ttl":"short"',
+         "default_ttl:zero": '"dttl":"zero"', "default_ttl:max": '"dttl":"max"'}
 
 
 def histogram(ctx, trace):
@@ -147,6 +156,7 @@ def histogram(ctx, trace):
 def judge_and_classify(ctx, trace, source, kd):
     histogram(ctx, trace)
     v = judge(ctx, trace, kd)
+    ctx.last_devcount = dict(v["devcount"])
     ctx.stage("judge", source=source, events=v["events"], violations=v["nviol"], deviations=dict(v["devcount"]), wall_s=v["wall_s"])
     for fid, n in v["devcount"].items():
         lib.note_known(ctx, fid, n)
@@ -218,7 +228,9 @@ def model_check(ctx, kd, quick):
     invs = ["JudgeAccepts", "InvEntry", "InvBytes", "InvBooks", "InvGhost"]
     ideal = [("bounds", 4 if quick else 5, dict(Policies=["lru", "ttl"], MaxE=[1, 2] if quick else [1, 2, 3], MaxB=[0, 4])),
              ("memttl", 5 if quick else 6, dict(Policies=["lru"], MaxE=[1, 2], DTtl=["none", "short"])),
-             ("disk", 5 if quick else 6, dict(DTtl=["none", "short"]))]
+             ("disk", 5 if quick else 6, dict(DTtl=["none", "short"])),
+             ("memedge", 4 if quick else 5, dict(Policies=["lru"], MaxE=[1, 2], DTtl=["none", "zero", "max"])),
+             ("diskedge", 4 if quick else 5, dict(DTtl=["none", "zero", "max"]))]
     for fam, depth, grid in ideal:
         cfg = ctx.path(f"chk_{fam}.cfg")
         lib.write_cfg(cfg, mc_constants(fam, depth, grid, "ideal"), "ChkInit", "ChkNext", invariants=invs,
@@ -228,7 +240,8 @@ def model_check(ctx, kd, quick):
         ctx.cov["transitions"] += r["generated"]
         ctx.stage("mc-ideal", family=fam, depth=depth, distinct_states=r["distinct"], generated=r["generated"], wall_s=r["wall_s"])
     # the code-shaped machine without any defect switched on satisfies the same invariants
-    for fam, depth, grid in [("disk", 5 if quick else 6, dict(DTtl=["none", "short"]))]:
+    for fam, depth, grid in [("disk", 5 if quick else 6, dict(DTtl=["none", "short"])),
+                             ("diskedge", 4 if quick else 5, dict(DTtl=["none", "zero", "max"]))]:
         cfg = ctx.path(f"chk_shape_{fam}.cfg")
         lib.write_cfg(cfg, mc_constants(fam, depth, grid, "asis", ()), "ChkInit", "ChkNext", invariants=invs,
                       constraints=["Constr"], symmetry="Sym", view="View")
@@ -316,9 +329,14 @@ def selftest_signatures(ctx, trace, kd):
     with_kd = lib.tlc_trace(ctx, MODULE_T, t_cfg(ctx, kd), p)
     without = lib.tlc_trace(ctx, MODULE_T, t_cfg(ctx, [], "t_cache_nodev.cfg"), p)
     explained = sum(d[2] for d in with_kd["deviations"])
-    ok = explained > 0 and with_kd["nviol"] == 0 and without["nviol"] == explained
-    ctx.cov["binding_selftest"]["deviations_rejected_when_not_listed"] = ok
-    ctx.cov["binding_selftest"]["deviation_events_in_sample"] = explained
+    # (an event explained by two findings counts twice in `explained`, once as a violation)
+    # (violations that are there anyway - a defective tree under test - are not the self-test's business)
+    ok = explained > 0 and 0 < without["nviol"] - with_kd["nviol"] <= explained
+    st = ctx.cov["binding_selftest"]
+    st["deviations_rejected_when_not_listed"] = ok and st.get("deviations_rejected_when_not_listed", True)
+    st["deviation_events_in_sample"] = st.get("deviation_events_in_sample", 0) + explained
+    st.setdefault("signatures_tested", [])
+    st["signatures_tested"] += sorted(d[1] for d in with_kd["deviations"])
     if not ok:
         raise lib.ToolError(f"signature self-test failed: explained={explained} violations with/without the listed deviations: {with_kd['nviol']}/{without['nviol']}")
 
@@ -351,7 +369,9 @@ def run(ctx):
                 ("bounds", 4, dict(Policies=["lru", "lfu", "random"], MaxE=[2], MaxB=[0, 4])),
                 ("memttl", 4, dict(Policies=["lru", "ttl"], MaxE=[1, 2], DTtl=["none", "short"])),
                 ("disk", 4, dict(SubDirs=[True, False], DTtl=["none", "short"])),
-                ("diskbg", 4, dict(Bg=[True]))]
+                ("diskbg", 4, dict(Bg=[True])),
+                ("memedge", 3, dict(Policies=["lru", "ttl"], MaxE=[1, 2], DTtl=["none", "zero", "max"])),
+                ("diskedge", 3, dict(DTtl=["none", "zero", "max"]))]
         nrand, rlen = 300, 200
     else:
         plan = [("bounds", 4, dict(Policies=ALL_POLICIES, MaxE=[1, 2, 3], MaxB=[0, 1, 4])),
@@ -359,9 +379,12 @@ def run(ctx):
                 ("memttl", 5, dict(Policies=["lru", "ttl"], MaxE=[1, 2], DTtl=["none", "short"])),
                 ("memttl", 6, dict(Policies=["lru"], MaxE=[2])),
                 ("disk", 5, dict(SubDirs=[True, False], DTtl=["none", "short"])),
-                ("diskbg", 5, dict(Bg=[True]))]
+                ("diskbg", 5, dict(Bg=[True])),
+                ("memedge", 4, dict(Policies=["lru", "ttl"], MaxE=[1, 2], DTtl=["none", "zero", "max"])),
+                ("diskedge", 4, dict(SubDirs=[True, False], DTtl=["none", "zero", "max"]))]
         nrand, rlen = 3000, 300
     first = True
+    sigs_tested = set()
     for fam, depth, grid in plan:
         n, dn, trace = gen_run_judge(ctx, fam, depth, grid, kd, keep_trace=True, shards=12 if fam == "bounds" else 32)
         total += n
@@ -369,8 +392,10 @@ def run(ctx):
         if first:
             selftest(ctx, trace, kd)
             first = False
-        if fam == "disk" and "F10b" in kd and ctx.known_seen.get("F10b"):
+        fresh = set(getattr(ctx, "last_devcount", {})) - sigs_tested
+        if fresh:        # a listed deviation was used in this trace for the first time: test its signature here
             selftest_signatures(ctx, trace, kd)
+            sigs_tested |= set(ctx.last_devcount)
         os.remove(trace)
     # long random histories: larger capacities, key population 3x the capacity, byte budgets from 1 byte up
     trace = ctx.path("trace_random.ndjson")
@@ -395,7 +420,8 @@ def run(ctx):
                                    "with keys named in order of first use; the random tier is not exhaustive")
     ctx.assumptions += [
         "TLC, the CommunityModules JSON reader and the driver's recording (results, size(), stats(), md5 of returned bytes) are trusted",
-        "time is logical: a 1 h TTL never ends during a run, a 2 ms TTL has ended after a 10 ms sleep and may or may not have ended before it",
+        "time is logical: a 1 h TTL never ends during a run, a 2 ms TTL has ended after a 10 ms sleep and may or may not have ended before it; "
+        "boundary TTLs: Duration::ZERO has ended when the put returns, 1 ns is judged like 2 ms, Duration::MAX never ends",
         "the disk cache is configured with limits far above the population (max_files = 100000, no byte limit): it is required to keep every unexpired value",
         "capacities above 3 entries, byte budgets other than {1, 4} and histories longer than the depth bound are covered by seeded random programs only",
     ]
